@@ -292,6 +292,13 @@ def run(P: Program, R: Report, tier: str) -> None:
                 if isinstance(c, ast.Call) and call_name(c) in WRITE_CALLS and len(c.args) >= 2:
                     n += 1
                     key = c.args[1]
+                    if isinstance(key, ast.Name):
+                        # a local alias of an attribute (`lineage_key = self.lineage_key`, hoisted out of a loop) is that attribute
+                        from ..resolve import Resolver as _Rs103
+
+                        d_ = _Rs103(P, m).single_def(key.id)
+                        if isinstance(d_, ast.Attribute):
+                            key = d_
                     g = gated(P, a, m, c, key)
                     if g is None and isinstance(key, ast.Name):
                         # a key that comes out of a helper's result (tuple unpacking of a call / generator) is not followed
